@@ -1,4 +1,5 @@
 import Guard.Lemmas.FramesEval
+import Guard.Lemmas.Records
 import Guard.Lemmas.PureSites
 import Guard.Model.WF
 /-
@@ -702,5 +703,481 @@ theorem pn_clause (env : Env) (fuel : Nat) (ih : AllPN env fuel) (c : Clause) (h
       split
       · exact pn_pure _
       · exact hgo
+
+
+syntax "pn_qr_auto" : tactic
+set_option hygiene false in
+macro_rules
+  | `(tactic| pn_qr_auto) => `(tactic| repeat (any_goals (first
+      | exact hnext _ _
+      | exact ih.acc _ qi query _ conv hw
+      | exact ih.rvar _
+      | contradiction
+      | (refine pn_mapM _ (fun _ _ => ?_))
+      | pn_step)))
+
+set_option maxHeartbeats 4000000 in
+theorem pn_qr (env : Env) (fuel : Nat) (ih : AllPN env fuel) (qi : Nat) (query : List QueryPart) (current : PV) (conv : Option Nat)
+    (hw : wfParts query = true) (hh0 : qi = 0 → headOk query = true) : PN (queryRetrieval env (fuel + 1) qi query current conv) := by
+  simp only [queryRetrieval]
+  have hnext : ∀ v c, PN (queryRetrieval env fuel (qi + 1) query v c) := fun v c => ih.qr (qi + 1) query v c hw (fun h => absurd h (by omega))
+  cases hq : query[qi]? with
+  | none => exact pn_pure _
+  | some part =>
+    have hpw := wfParts_get hw hq
+    simp only
+    split
+    · -- variable head
+      refine pn_bind (ih.rvar _) (fun retrieved => pn_bind (pn_mapM _ (fun each _ => ?_)) (fun _ => pn_pure _))
+      repeat (any_goals (first
+        | exact pn_withValueScope (ih.qr _ query _ conv hw (fun h => absurd h (by omega)))
+        | pn_step))
+    · cases part with
+      | filter name cnf =>
+        have hcnf : wfCnf cnf = true := by unfold QueryPart.wf at hpw; exact hpw
+        have hq0 : (qi == 0) = false := by
+          cases h0 : (qi == 0) with
+          | false => rfl
+          | true =>
+            have : qi = 0 := by simpa using h0
+            subst this
+            exact (headOk_not_filter (hh0 rfl) hq).elim
+        simp only [hq0, Bool.false_eq_true, ↓reduceIte]
+        repeat (any_goals (first
+          | exact hnext _ _
+          | exact ih.cad cnf _ (qi + 1) query _ _ conv hcnf hw (by omega)
+          | exact ih.cnf cnf hcnf
+          | (refine pn_mapM _ (fun _ _ => ?_))
+          | pn_step))
+      | mapKeyFilter name op opNot withV =>
+        have hop : op.isUnary = false ∧ withV.wf = true := by
+          unfold QueryPart.wf at hpw
+          simp only [Bool.and_eq_true, Bool.not_eq_true'] at hpw
+          exact hpw
+        simp only
+        split
+        · rename_i p ks vs
+          have hrest : ∀ rhs : List QR, PN (do
+              let results ← withRec (fun rs => RecKind.filter (bodyStatus (rs.map (·.2))))
+                (realBinaryOperation env (ks.map fun (p, k) => QR.resolved (PV.str p k)) rhs op opNot none)
+              let selected ← results.filterMapM fun (q, s) =>
+                match q, s with
+                | .resolved key, .pass =>
+                  match key with
+                  | .str _ kn =>
+                    match PV.lookupKV ks vs kn with
+                    | some v => pure (some (QR.resolved v))
+                    | none => throwPanic .mapKeyMissing
+                  | _ => pure none
+                | .unresolved ur, _ => pure (some (QR.unresolved ur))
+                | _, _ => pure none
+              let rows ← selected.mapM fun each =>
+                match each with
+                | .literal r | .resolved r => queryRetrieval env fuel (qi + 1) query r conv
+                | .unresolved ur => pure [QR.unresolved ur]
+              pure rows.flatten : M (List QR)) := by
+            intro rhs
+            refine pn_bind (pn_withRec (pn_realBinaryOperation env _ rhs op hop.1 opNot none)) (fun results => ?_)
+            refine pn_bind (pn_filterMapM (fun x => ?_) _) (fun selected => ?_)
+            · obtain ⟨q, st⟩ := x
+              repeat (any_goals (first
+                | exact pn_throwPanic _ (Or.inl rfl)
+                | pn_step))
+            · refine pn_bind (pn_mapM _ (fun each _ => ?_)) (fun _ => pn_pure _)
+              split
+              · exact hnext _ _
+              · exact hnext _ _
+              · exact pn_pure _
+          cases withV with
+          | value v => exact pn_bind (pn_pure _) hrest
+          | access q a =>
+            have := hop.2; simp only [LetValue.wf, Bool.and_eq_true] at this
+            exact pn_bind (ih.qr 0 q _ conv this.2 (fun _ => this.1)) hrest
+          | func n ps => exact pn_bind (ih.rfun n ps hop.2) hrest
+        · exact pn_pure _
+      | this => simp only; pn_qr_auto
+      | index i => simp only; pn_qr_auto
+      | allIndices name => simp only; pn_qr_auto
+      | allValues name => simp only; pn_qr_auto
+      | key k =>
+        simp only
+        pn_qr_auto
+        all_goals (
+          rename_i hsel
+          (repeat' (split at hsel))
+          all_goals first
+            | (cases hsel; done)
+            | (cases hsel; first | exact pn_pure _ | exact pn_throwErr _))
+
+
+theorem findParamRule_spec {name : Str} {st s1 : St} {pr : ParamRule} (h : findParamRule name st = .ok (pr, s1)) :
+    pr ∈ st.file.prules := by
+  unfold findParamRule at h
+  obtain ⟨x, s2, hg, h2⟩ := M.bind_ok h
+  have : x = st := by
+    change (Outcome.ok (st, st)) = .ok (x, s2) at hg
+    cases hg; rfl
+  subst this
+  cases hr : (x.file.prules.filter fun r => r.rule.name = name).getLast? with
+  | some r =>
+    simp only [hr] at h2
+    obtain ⟨rfl, _⟩ := M.pure_ok h2
+    have := List.mem_of_getLast? hr
+    exact (List.mem_filter.mp this).1
+  | none =>
+    simp only [hr] at h2
+    cases h2
+
+theorem pn_pcall (env : Env) (fuel : Nat) (ih : AllPN env fuel) (rule : Str) (neg : Bool) (msg : Option Str)
+    (params : List LetValue) (hp : wfParams params = true) : PN (evalParamCall env (fuel + 1) rule neg msg params) := by
+  simp only [evalParamCall]
+  refine pn_bind_ev (pn_findParamRule rule) (fun pr hev => ?_)
+  obtain ⟨st, s1, hg, hf⟩ := hev
+  have hpr : pr.rule.wf = true := by
+    have hm := findParamRule_spec hf
+    have hfw := hg.2.1
+    simp only [RulesFile.wf, Bool.and_eq_true, List.all_eq_true] at hfw
+    exact hfw.2 pr hm
+  split
+  · exact pn_throwErr _
+  · refine pn_bind (pn_mapM _ (fun p hpm => pn_argValue env fuel ih QR.resolved p (wfParams_mem hp p hpm))) (fun vals => ?_)
+    refine pn_pushPopK (f := mkParamsFrame pr.params vals) (by unfold mkParamsFrame; trivial) (ih.rule pr.rule hpr) (fun s => ?_)
+    refine pn_bind (pn_modify ?_ ?_) (fun _ => pn_pure _)
+    · intro st; split
+      · split <;> exact FramesSim.refl _
+      · exact FramesSim.refl _
+    · intro st; split
+      · split <;> rfl
+      · rfl
+
+
+theorem get_ok (st : St) : (get : M St) st = .ok (st, st) := rfl
+
+theorem rulesNamed_spec {name : Str} {st s1 : St} {rules : List Rule} (h : rulesNamed name st = .ok (rules, s1)) :
+    s1 = st ∧ rules = st.file.rules.filter (fun r => r.name = name) := by
+  unfold rulesNamed at h
+  obtain ⟨x, s2, hg, hp⟩ := M.bind_ok h
+  rw [get_ok] at hg; cases hg
+  obtain ⟨rfl, rfl⟩ := M.pure_ok hp
+  exact ⟨rfl, rfl⟩
+
+theorem G_root_only {st : St} (hg : G st) (rip : List Str) :
+    G { st with rulesInProgress := rip, frames := st.frames.drop st.frames.dropLast.length } := by
+  obtain ⟨⟨pre, b, e⟩, hf, hw⟩ := hg
+  refine ⟨?_, hf, ?_⟩
+  · refine ⟨[], b, ?_⟩
+    show st.frames.drop st.frames.dropLast.length = [Frame.block b]
+    rw [e]; simp
+  · intro f hfm
+    exact hw f (List.mem_of_mem_drop hfm)
+
+theorem modify_ok (f : St → St) (st : St) : (modify f : M Unit) st = .ok ((), f st) := rfl
+
+theorem pn_rstat (env : Env) (fuel : Nat) (ih : AllPN env fuel) (name : Str) : PN (ruleStatus env (fuel + 1) name) := by
+  intro st0 hg
+  constructor
+  · intro a st' h0
+    refine ⟨(allPres env (fuel + 1)).rstat name st0 a st' h0, ?_⟩
+    simp only [ruleStatus] at h0
+    obtain ⟨stg, s1, hg1, h1⟩ := M.bind_ok h0
+    rw [get_ok] at hg1; cases hg1
+    cases hlk : alLookup name st0.ruleStatus with
+    | some sv => rw [hlk] at h1; obtain ⟨_, e⟩ := M.pure_ok h1; rw [e]
+    | none =>
+      rw [hlk] at h1
+      obtain ⟨rules, s2, hr, h2⟩ := M.bind_ok h1
+      obtain ⟨e2, erules⟩ := rulesNamed_spec hr
+      rw [e2] at h2
+      by_cases he : rules.isEmpty = true
+      · simp only [he, ↓reduceIte] at h2; cases h2
+      · by_cases hp : st0.rulesInProgress.contains name = true
+        · simp only [he, hp, ↓reduceIte] at h2; cases h2
+        · simp only [he, hp, ↓reduceIte] at h2
+          obtain ⟨_, s3, hm1, h3⟩ := M.bind_ok h2
+          obtain ⟨s, s4, hfns, h4⟩ := M.bind_ok h3
+          obtain ⟨_, s5, hm2, h5⟩ := M.bind_ok h4
+          obtain ⟨_, e6⟩ := M.pure_ok h5
+          rw [modify_ok] at hm1; cases hm1
+          rw [modify_ok] at hm2; cases hm2
+          have hwf : ∀ r ∈ rules, r.wf = true := by
+            intro r hrm
+            rw [erules] at hrm
+            have hfw := hg.2.1
+            simp only [RulesFile.wf, Bool.and_eq_true, List.all_eq_true] at hfw
+            exact hfw.1.2 r (List.mem_filter.mp hrm).1
+          have := ((ih.fns rules hwf) _ (G_root_only hg (name :: st0.rulesInProgress))).1 s s4 hfns
+          rw [e6]
+          exact this.2
+  · intro sp h0
+    simp only [ruleStatus] at h0
+    rcases M.bind_panic h0 with h | ⟨stg, s1, hg1, h1⟩
+    · rw [get_ok] at h; cases h
+    rw [get_ok] at hg1; cases hg1
+    cases hlk : alLookup name st0.ruleStatus with
+    | some sv => rw [hlk] at h1; cases h1
+    | none =>
+      rw [hlk] at h1
+      rcases M.bind_panic h1 with h | ⟨rules, s2, hr, h2⟩
+      · exact ((pn_rulesNamed name) st0 hg).2 sp h
+      obtain ⟨e2, erules⟩ := rulesNamed_spec hr
+      rw [e2] at h2
+      by_cases he : rules.isEmpty = true
+      · simp only [he, ↓reduceIte] at h2; cases h2
+      · by_cases hp : st0.rulesInProgress.contains name = true
+        · simp only [he, hp, ↓reduceIte] at h2; cases h2
+        · simp only [he, hp, ↓reduceIte] at h2
+          rcases M.bind_panic h2 with h | ⟨_, s3, hm1, h3⟩
+          · rw [modify_ok] at h; cases h
+          rw [modify_ok] at hm1; cases hm1
+          have hwf : ∀ r ∈ rules, r.wf = true := by
+            intro r hrm
+            rw [erules] at hrm
+            have hfw := hg.2.1
+            simp only [RulesFile.wf, Bool.and_eq_true, List.all_eq_true] at hfw
+            exact hfw.1.2 r (List.mem_filter.mp hrm).1
+          rcases M.bind_panic h3 with h | ⟨s, s4, hfns, h4⟩
+          · exact ((ih.fns rules hwf) _ (G_root_only hg (name :: st0.rulesInProgress))).2 sp h
+          rcases M.bind_panic h4 with h | ⟨_, s5, hm2, h5⟩
+          · rw [modify_ok] at h; cases h
+          · cases h5
+
+
+theorem G_tail {st : St} {f : Frame} {rest : List Frame} (hg : G st) (hf : st.frames = f :: rest) (hne : rest.isEmpty = false) :
+    G { st with frames := rest } := by
+  obtain ⟨⟨pre, b, e⟩, hfile, hw⟩ := hg
+  refine ⟨?_, hfile, ?_⟩
+  · rw [hf] at e
+    cases pre with
+    | nil => simp at e; rw [e.2] at hne; simp at hne
+    | cons p pre' => simp at e; exact ⟨pre', b, e.2⟩
+  · intro x hx; exact hw x (by rw [hf]; exact List.mem_cons_of_mem _ hx)
+
+theorem G_top {st : St} {b nb : BlockFrame} {rest : List Frame} (hg : G st) (hf : st.frames = Frame.block b :: rest)
+    (hq : nb.queries = b.queries) (hfu : nb.funs = b.funs) : G { st with frames := Frame.block nb :: rest } := by
+  obtain ⟨⟨pre, b0, e⟩, hfile, hw⟩ := hg
+  refine ⟨?_, hfile, ?_⟩
+  · rw [hf] at e
+    cases pre with
+    | nil => simp at e; exact ⟨[], nb, by rw [e.2]; rfl⟩
+    | cons p pre' => simp at e; exact ⟨Frame.block nb :: pre', b0, by rw [e.2]; rfl⟩
+  · intro x hx
+    rcases List.mem_cons.mp hx with rfl | hx
+    · have := hw (Frame.block b) (by rw [hf]; simp)
+      simp only [Frame.wf] at this ⊢
+      rw [hq, hfu]; exact this
+    · exact hw x (by rw [hf]; exact List.mem_cons_of_mem _ hx)
+
+set_option maxHeartbeats 2000000 in
+theorem pn_rvar (env : Env) (fuel : Nat) (ih : AllPN env fuel) (name : Str) : PN (resolveVariable env (fuel + 1) name) := by
+  intro st hg
+  constructor
+  · -- success: the scope stack is preserved (`allPres`), the file is untouched
+    intro a st' h
+    refine ⟨(allPres env (fuel + 1)).rvar name st a st' h, ?_⟩
+    simp only [resolveVariable] at h
+    cases hf : st.frames with
+    | nil => rw [hf] at h; cases h
+    | cons f rest =>
+      rw [hf] at h; simp only at h
+      have hdel : ∀ {a st'}, (if rest.isEmpty = true then (Outcome.err ErrKind.MissingValue : Outcome (List QR × St))
+            else match resolveVariable env fuel name { st with frames := rest } with
+              | .ok (r, st') => .ok (r, { st' with frames := f :: st'.frames })
+              | e => e) = .ok (a, st') → st'.file = st.file := by
+        intro a st' hd
+        by_cases hre : rest.isEmpty = true
+        · simp only [hre, ↓reduceIte] at hd; cases hd
+        · simp only [hre, Bool.false_eq_true, ↓reduceIte] at hd
+          have hre' : rest.isEmpty = false := by cases hh : rest.isEmpty <;> simp_all
+          cases hr : resolveVariable env fuel name { st with frames := rest } with
+          | ok p =>
+            obtain ⟨r, s2⟩ := p
+            rw [hr] at hd; cases hd
+            exact ((ih.rvar name) _ (G_tail hg hf hre')).1 _ _ hr |>.2
+          | err e => rw [hr] at hd; cases hd
+          | panic sp => rw [hr] at hd; cases hd
+          | outOfFuel => rw [hr] at hd; cases hd
+      cases f with
+      | value r => exact hdel h
+      | params ps =>
+        simp only at h
+        split at h
+        · cases h; rfl
+        · exact hdel h
+      | block b =>
+        simp only at h
+        split at h
+        · cases h; rfl
+        · split at h
+          · cases h; rfl
+          · split at h
+            · rename_i fname params hfun
+              split at h
+              · cases h
+              · split at h
+                · rename_i result s2 hr
+                  split at h
+                  · cases h
+                    have hwf : (LetValue.func fname params).wf = true := by
+                      have := hg.2.2 (Frame.block b) (by rw [hf]; simp)
+                      exact this.2 name fname params (alLookup_mem hfun)
+                    exact ((ih.rfun fname params hwf) _ (G_top (nb := { b with inProgress := name :: b.inProgress }) hg hf rfl rfl)).1 _ _ hr |>.2
+                  · cases h
+                · rename_i e hne
+                  exact (hne _ _ h).elim
+            · split at h
+              · rename_i q matchAll hqu
+                split at h
+                · cases h
+                · split at h
+                  · rename_i result s2 hr
+                    split at h
+                    · cases h
+                      have hwf : wfQuery q = true := by
+                        have := hg.2.2 (Frame.block b) (by rw [hf]; simp)
+                        exact this.1 name q matchAll (alLookup_mem hqu)
+                      simp only [wfQuery, Bool.and_eq_true] at hwf
+                      exact ((ih.qr 0 q b.root none hwf.2 (fun _ => hwf.1)) _ (G_top (nb := { b with inProgress := name :: b.inProgress }) hg hf rfl rfl)).1 _ _ hr |>.2
+                    · cases h
+                  · rename_i e hne
+                    exact (hne _ _ h).elim
+              · exact hdel h
+  · intro sp h
+    simp only [resolveVariable] at h
+    cases hf : st.frames with
+    | nil => rw [hf] at h; cases h
+    | cons f rest =>
+      rw [hf] at h; simp only at h
+      have hdel : (if rest.isEmpty = true then (Outcome.err ErrKind.MissingValue : Outcome (List QR × St))
+            else match resolveVariable env fuel name { st with frames := rest } with
+              | .ok (r, st') => .ok (r, { st' with frames := f :: st'.frames })
+              | e => e) = .panic sp → Allowed sp := by
+        intro hd
+        by_cases hre : rest.isEmpty = true
+        · simp only [hre, ↓reduceIte] at hd; cases hd
+        · simp only [hre, Bool.false_eq_true, ↓reduceIte] at hd
+          have hre' : rest.isEmpty = false := by cases hh : rest.isEmpty <;> simp_all
+          cases hr : resolveVariable env fuel name { st with frames := rest } with
+          | ok p => rw [hr] at hd; cases hd
+          | err e => rw [hr] at hd; cases hd
+          | panic sp' => rw [hr] at hd; cases hd; exact ((ih.rvar name) _ (G_tail hg hf hre')).2 _ hr
+          | outOfFuel => rw [hr] at hd; cases hd
+      cases f with
+      | value r => exact hdel h
+      | params ps =>
+        simp only at h
+        split at h
+        · cases h
+        · exact hdel h
+      | block b =>
+        simp only at h
+        split at h
+        · cases h
+        · split at h
+          · cases h
+          · split at h
+            · rename_i fname params hfun
+              have hwf : (LetValue.func fname params).wf = true := by
+                have := hg.2.2 (Frame.block b) (by rw [hf]; simp)
+                exact this.2 name fname params (alLookup_mem hfun)
+              split at h
+              · cases h
+              · have hG := G_top (nb := { b with inProgress := name :: b.inProgress }) hg hf rfl rfl
+                cases hr : resolveFunction env fuel fname params { st with frames := Frame.block { b with inProgress := name :: b.inProgress } :: rest } with
+                | ok p =>
+                  obtain ⟨result, s2⟩ := p
+                  rw [hr] at h; simp only at h
+                  -- the `finish` pattern match cannot fail: the stack is preserved
+                  have hs := ((ih.rfun fname params hwf) _ hG).1 result s2 hr |>.1
+                  obtain ⟨g, gs, e, hgs, _⟩ := FramesSim.cons_inv hs
+                  rw [e] at h
+                  cases g with
+                  | block b' => cases h
+                  | value r => simp [Frame.sim] at hgs
+                  | params ps => simp [Frame.sim] at hgs
+                | err e => rw [hr] at h; cases h
+                | panic sp' => rw [hr] at h; cases h; exact ((ih.rfun fname params hwf) _ hG).2 _ hr
+                | outOfFuel => rw [hr] at h; cases h
+            · split at h
+              · rename_i q matchAll hqu
+                have hwf : wfQuery q = true := by
+                  have := hg.2.2 (Frame.block b) (by rw [hf]; simp)
+                  exact this.1 name q matchAll (alLookup_mem hqu)
+                simp only [wfQuery, Bool.and_eq_true] at hwf
+                split at h
+                · cases h
+                · have hG := G_top (nb := { b with inProgress := name :: b.inProgress }) hg hf rfl rfl
+                  cases hr : queryRetrieval env fuel 0 q b.root none { st with frames := Frame.block { b with inProgress := name :: b.inProgress } :: rest } with
+                  | ok p =>
+                    obtain ⟨result, s2⟩ := p
+                    rw [hr] at h; simp only at h
+                    have hs := ((ih.qr 0 q b.root none hwf.2 (fun _ => hwf.1)) _ hG).1 result s2 hr |>.1
+                    obtain ⟨g, gs, e, hgs, _⟩ := FramesSim.cons_inv hs
+                    rw [e] at h
+                    cases g with
+                    | block b' => cases h
+                    | value r => simp [Frame.sim] at hgs
+                    | params ps => simp [Frame.sim] at hgs
+                  | err e => rw [hr] at h; cases h
+                  | panic sp' => rw [hr] at h; cases h; exact ((ih.qr 0 q b.root none hwf.2 (fun _ => hwf.1)) _ hG).2 _ hr
+                  | outOfFuel => rw [hr] at h; cases h
+              · exact hdel h
+
+
+theorem allPN_succ (env : Env) (fuel : Nat) (ih : AllPN env fuel) : AllPN env (fuel + 1) where
+  qr := pn_qr env fuel ih
+  acc := pn_acc env fuel ih
+  cad := pn_cad env fuel ih
+  qctx := pn_qctx env fuel ih
+  rvar := pn_rvar env fuel ih
+  rfun := pn_rfun env fuel ih
+  cnf := pn_cnf env fuel ih
+  line := pn_line env fuel ih
+  alts := pn_alts env fuel ih
+  clause := pn_clause env fuel ih
+  block := pn_block env fuel ih
+  unary := fun q op opNot inverse msg hq hne hop => pn_unary env fuel ih q op opNot inverse msg hq hne hop
+  binary := fun q rhs op opNot msg hq => pn_binary env fuel ih q rhs op opNot msg hq
+  pcall := pn_pcall env fuel ih
+  rstat := pn_rstat env fuel ih
+  fns := pn_fns env fuel ih
+  rule := pn_rule env fuel ih
+
+/-- every function of the evaluator, on well-formed arguments and from a good state, can only raise a residue panic -/
+theorem allPN (env : Env) : ∀ fuel, AllPN env fuel
+  | 0 => allPN_zero env
+  | fuel + 1 => allPN_succ env fuel (allPN env fuel)
+
+theorem G_init (file : RulesFile) (doc : PV) (hw : file.wf = true) : G (St.init file doc) := by
+  have hl : wfLets file.lets = true := by
+    simp only [RulesFile.wf, Bool.and_eq_true] at hw; exact hw.1.1
+  refine ⟨⟨[], extractVariables file.lets doc, rfl⟩, hw, ?_⟩
+  intro f hf
+  simp only [St.init, List.mem_singleton] at hf
+  rw [hf]; exact extractVariables_wf file.lets doc hl
+
+/-- **the evaluator never reaches an `unreachable!()`, an out-of-bounds index or a broken scope stack on parser
+    output**: for every well-formed rules file (`RulesFile.wf`: queries do not start with a filter, unary clauses
+    have a query, `keys` filters use binary operators, built-in functions are called with their arity - checked
+    on every AST the harness sends), every document, `Env` and fuel, an evaluation that panics can only have
+    panicked at `map.values.get(key).unwrap()` of the `keys` filter or at the model-only float-oracle site. -/
+theorem runFile_panics_only (env : Env) (fuel : Nat) (file : RulesFile) (doc : PV) (hw : file.wf = true) (s : PanicSite)
+    (h : runFile env fuel file doc = .panic s) : s = .mapKeyMissing ∨ s = .floatOfInt := by
+  unfold runFile at h
+  have hwr : ∀ r ∈ file.rules, r.wf = true := by
+    intro r hr
+    simp only [RulesFile.wf, Bool.and_eq_true, List.all_eq_true] at hw
+    exact hw.1.2 r hr
+  have hpn : PN (evalRulesFile env fuel file) := by
+    unfold evalRulesFile
+    exact pn_withRec (pn_bind (pn_mapM _ (fun r hr => (allPN env fuel).rule r (hwr r hr))) (fun _ => pn_pure _))
+  cases hev : evalRulesFile env fuel file (St.init file doc) with
+  | ok p =>
+    obtain ⟨s0, st⟩ := p
+    rw [hev] at h; simp only at h
+    obtain ⟨r, hr⟩ := runFile_never_panics_on_records env fuel file doc s0 st hev
+    rw [hr] at h; cases h
+  | err e => rw [hev] at h; cases h
+  | panic s' => rw [hev] at h; cases h; exact (hpn _ (G_init file doc hw)).2 _ hev
+  | outOfFuel => rw [hev] at h; cases h
 
 end Guard
